@@ -230,7 +230,7 @@ class _K:
 Keys.K = staticmethod(_K.K)
 
 
-def body(prog, F, S, L):
+def body(prog, F, S, L, recorder=None, override=None):
     """the describing function's body as a Python closure; F: callables per function, S: per sub-dag, L: logic ops"""
 
     def ev(e, env, params):
@@ -247,7 +247,10 @@ def body(prog, F, S, L):
 
     def run(*params):
         env = []
-        for st in prog["stmts"]:
+        for si, st in enumerate(prog["stmts"]):
+            if override is not None and si in override:
+                env.append(override[si])
+                continue
             if st["op"] == "call":
                 kw = {k: ev(v, env, params) for k, v in st["kwargs"].items()}
                 if st["active"] is not None:
@@ -282,6 +285,10 @@ def body(prog, F, S, L):
                 if st["active"] is not None:
                     kw["twz_active"] = ev(st["active"], env, params)
                 env.append(S[st["d"]](*[ev(a, env, params) for a in st["args"]], **kw))
+        if recorder is not None:
+            recorder[:] = list(env)
+        if override is not None and "__outs__" in override:
+            return [env[i] for i in override["__outs__"]]
         r = prog["ret"]
         items = [ev(e, env, params) for e in r["items"]]
         if r["shape"] == "none":
@@ -302,7 +309,7 @@ def body(prog, F, S, L):
     return run
 
 
-def build_tawazi(prog, registry, attrs_override=None, is_async=False, counter=None):
+def build_tawazi(prog, registry, attrs_override=None, is_async=False, counter=None, recorder=None):
     """-> DAG object; registry: exec_function qualname -> fcode string for the model"""
     F = []
     for j, f in enumerate(prog["funs"]):
@@ -316,7 +323,10 @@ def build_tawazi(prog, registry, attrs_override=None, is_async=False, counter=No
         registry["f%d" % f["fid"]] = fcode_of(f, j in prog.get("fails", []))
     S = [build_tawazi(s, registry, attrs_override, False, counter) for s in prog["subs"]]
     L = {"and": tawazi.and_, "or": tawazi.or_, "not": tawazi.not_}
-    return tawazi.dag(body(prog, F, S, L), max_concurrency=prog["maxc"], is_async=is_async)
+    d = tawazi.dag(body(prog, F, S, L, recorder=recorder), max_concurrency=prog["maxc"], is_async=is_async)
+    # the nested DAG objects, for the embedding check (K-build of nesting)
+    object.__setattr__(d, "_verif_subs", [(st, S[st["d"]]) for st in prog["stmts"] if st["op"] == "sub"])
+    return d
 
 
 def fcode_of(f, failing):
@@ -330,7 +340,7 @@ def fcode_of(f, failing):
     return "(FApp %d %s)" % (f["fid"], b(f["truth"]))
 
 
-def build_plain(prog, counter=None):
+def build_plain(prog, counter=None, override=None):
     """the reference: every decorated function replaced by its plain callable, evaluated sequentially"""
 
     def plain(raw, unpack):
@@ -357,7 +367,7 @@ def build_plain(prog, counter=None):
 
     S = [subcall(s, sp) for s, sp in zip(subs, prog["subs"])]
     L = {"and": lambda a, b: a and b, "or": lambda a, b: a or b, "not": lambda a: not a}
-    run = body(prog, F, S, L)
+    run = body(prog, F, S, L, override=override)
     top = prog["params"]
 
     def with_defaults(*a):
